@@ -29,18 +29,18 @@ type sproc struct {
 
 // scenario runs schedule steps against a real limiter stack inside a synctest bubble.
 type scenario struct {
-	t      testing.TB
-	c      *controller
-	lim    core.Limiter
-	procs  map[string]*sproc
-	names  []string
-	t0     time.Time
-	mu     sync.Mutex
-	evs    []J // events of the current step in the order they happened
-	extra  func() J
+	t       testing.TB
+	c       *controller
+	lim     core.Limiter
+	procs   map[string]*sproc
+	names   []string
+	t0      time.Time
+	mu      sync.Mutex
+	evs     []J // events of the current step in the order they happened
+	extra   func() J
 	wrapCtx func(ctx context.Context) context.Context
-	flush  func() // stack-specific clean-up (e.g. a Broadcast to flush leaked helpers)
-	settle func() // real-time scenarios (no bubble): how to wait for quiescence after a step
+	flush   func() // stack-specific clean-up (e.g. a Broadcast to flush leaked helpers)
+	settle  func() // real-time scenarios (no bubble): how to wait for quiescence after a step
 }
 
 // wait for quiescence: inside a bubble synctest.Wait(); in real time the scenario's settle function
